@@ -4,6 +4,7 @@ CONSTANTS
   MaxGen = 3
   RestartRule = "leak"
   PortRule = "opened"
+  ShutdownRule = "close_always"
 INVARIANT OneResponder
 INVARIANT AnswersTrue
 CHECK_DEADLOCK FALSE
